@@ -181,6 +181,7 @@ structure Server where
   conn : Conn := {}
   pipe : Pipe := {}
   outstanding : List Nat := []            -- requests delivered whose Context is still alive
+  keptResp : List (Nat × Respond) := []   -- … and what the handlers had put into their response by then
   scripts : List (Nat × HScript) := []    -- what the handlers do for request i
   cclosed : Bool := false                 -- the client has closed its socket
   halfSpec : Bool := false                -- driver only: half-close handled as the PROPERTY asks (op chalfS), not as coded
@@ -211,7 +212,7 @@ def Server.handleReq (s : Server) (last : Bool) : Server × HState :=
   let ops := PipeOp.req last :: ((if h.stopped then [PipeOp.drop] else []) ++
              (if h.kept then [] else commitOps s.pipe idx h.resp.render))
   let s1 := s.emit ops
-  (if h.kept then { s1 with outstanding := s1.outstanding ++ [idx] } else s1, h)
+  (if h.kept then { s1 with outstanding := s1.outstanding ++ [idx], keptResp := (idx, h.resp) :: s1.keptResp } else s1, h)
 
 /-- the receive loop's view of the events of one `recv`: `consumed` bytes of `whole` were parsed
 so far. A handler that throws or stops the server ends the loop (patches/C12-05). Returns the
